@@ -53,6 +53,14 @@ theorem slice_flag (z0 z1 N a b p0 p1 : Int) (oob : Bool)
   simp only [bind, Except.bind, pure, Except.pure, throw, throwThe, MonadExceptOf.throw] at h
   grind
 
+/-- the clipped slice and the paddings, explicitly -/
+theorem slice_values (z0 z1 N a b p0 p1 : Int) (oob : Bool)
+    (h : makeSliceAndPad z0 z1 N = .ok ((a, b), (p0, p1), oob)) :
+    a = max z0 0 ∧ b = min z1 N ∧ p0 = a - z0 ∧ p1 = z1 - b ∧ (oob = false → p0 = 0 ∧ p1 = 0) := by
+  unfold makeSliceAndPad at h
+  simp only [bind, Except.bind, pure, Except.pure, throw, throwThe, MonadExceptOf.throw] at h
+  grind
+
 -- non-vacuity: a window straddling the upper face
 example : makeSliceAndPad 7 12 10 = .ok ((7, 10), (0, 2), true) := by rfl
 
